@@ -14,7 +14,7 @@ typedef struct
 	sf_count_t dataoff ;
 } Seed ;
 
-enum { M_IDENT = 0, M_TRUNC, M_BYTE, M_W16, M_W32, M_W64, M_CDEL, M_CDUP, M_CSWAP, M_CEND, M_CRETAG, M_CSHRINK, M_RAW, M_NKINDS } ;
+enum { M_IDENT = 0, M_TRUNC, M_BYTE, M_W16, M_W32, M_W64, M_CDEL, M_CDUP, M_CSWAP, M_CEND, M_CRETAG, M_CSHRINK, M_RAW, M_FILL, M_NKINDS } ;
 typedef struct { int kind ; sf_count_t a, b ; uint64_t v ; int be ; const char *id ; unsigned char raw [96] ; int rawlen ; } Mut ;
 
 #define MAXSEEDS 700
